@@ -33,7 +33,7 @@ TOL = 1e-6
 
 
 def floors(tier):
-    return {"tables": 2000, "tables-repeated-depth": 300, "tables-single-row": 300, "tables-first-depth-zero": 600, "C18.leg": 3000, "C18.collar": 600, "histories": 100, "histories-mixed": 40, "C18.vertex": 400, "C18.cell": 150, "C18.value": 400}
+    return {"tables": 2000, "tables-repeated-depth": 300, "tables-single-row": 300, "tables-first-depth-zero": 600, "C18.leg": 3000, "C18.collar": 600, "histories": 100, "histories-mixed": 40, "C18.vertex": 400, "C18.cell": 150, "C18.value": 400, "additions-on-unread-hole": 8}
 
 
 def gen_cases(tier, seed):
@@ -353,6 +353,11 @@ def do_history(case, rec, rng):
                 ws.open()
                 hole = ws.get_entity(uid)[0]
                 ops.append(("reopen", 0))
+                if k + 1 < case["n_add"] and rng.random() < 0.6:
+                    # the next addition meets a hole whose geometry was not read in this session yet
+                    ops.append(("unread", 0))
+                    rec.see("additions-on-unread-hole")
+                    continue
             judge_hole(rec, hole, collar, rows, given_depth, given_int, tolv, f"after-{mode}")
         if len(kinds) == 2:
             rec.see("histories-mixed")
